@@ -1,13 +1,16 @@
 #!/bin/bash
-# usage: seedtest.sh <patch.diff> <check ids...>   -- apply a seeded change to /repo, run checks, undo
+# usage: seedtest.sh <patch.diff> <check ids...>
+# Applies a seeded change to a SCRATCH checkout of /repo (/tmp/seedrepo, a git worktree), runs the quick checks
+# against it (VERIF_REPO), and removes the change again.  /repo itself is never touched.
 set -u
-PATCH=$1; shift
-cd /repo || exit 2
-git diff --quiet || { echo "repo dirty"; exit 2; }
-git apply "$PATCH" || { echo "patch does not apply"; exit 2; }
+PATCH=$(readlink -f "$1"); shift
+SR=/tmp/seedrepo
+if [ ! -d $SR ]; then git -C /repo worktree add -q --detach $SR HEAD || exit 2; fi
+git -C $SR checkout -q --detach "$(git -C /repo rev-parse HEAD)" && git -C $SR checkout -q -- . && git -C $SR clean -fdq
+git -C $SR apply "$PATCH" || { echo "patch does not apply"; exit 2; }
 cd /verif
 for p in "$@"; do
-  out=$(./check $p 2>&1); rc=$?
+  out=$(VERIF_REPO=$SR ./check $p 2>&1); rc=$?
   echo "== $p exit=$rc $(echo "$out" | grep -cE '^VIOLATION') violation lines; $(echo "$out" | grep -E 'TOOL-ERROR|quick:' | tail -1)"
 done
-git -C /repo checkout -- . ; git -C /repo status --short | head -3
+git -C $SR checkout -q -- . ; git -C $SR clean -fdq
